@@ -126,6 +126,12 @@ impl<'a> Gen<'a> {
                 let amt = match self.r.below(if stable_pool { 12 } else { 6 }) { 0 => 1 + self.r.below(2000) as u128, 1 => if stable_pool { whole * 10u128.pow(dec) } else { rand_mag(self.r, 28) }, _ => whole * 10u128.pow(dec) / [1u128, 1, 10, 1000][self.r.below(if stable_pool { 2 } else { 4 }) as usize] + self.r.below(10) as u128 };
                 funds.push(coin(amt.max(1), a.denom.clone()));
             }
+            // first constant-product deposit at a square-root boundary: a*b = k^2, k^2 - 1 or k^2 + k
+            if !stable_pool && funds.len() == 2 && self.r.chance(1, 6) {
+                let k = 1001 + rand_mag(self.r, 22);
+                let (a, b) = match self.r.below(4) { 0 => (k, k), 1 => (k - 1, k + 1), 2 => (k, k + 1), _ => (1, k.saturating_mul(k).min(u128::MAX / 4)) };
+                funds[0].amount = cosmwasm_std::Uint128::new(a); funds[1].amount = cosmwasm_std::Uint128::new(b);
+            }
             if self.r.chance(1, 15) { funds.pop(); }
         } else if single {
             let i = self.r.below(2) as usize;
